@@ -390,7 +390,7 @@ def gen_def_variants(rng, k, safe=False, dmodes=None, **kw):
         if not _ok_source(v) or any(v == s for s, _ in out):
             continue
         fd = ast.parse(v).body[0]
-        sig = [x.arg for x in fd.args.args + fd.args.kwonlyargs if x.arg not in ("self", "cls") or x is not fd.args.args[0]]
+        sig = [x.arg for i, x in enumerate(fd.args.args) if i or x.arg not in ("self", "cls")] + [x.arg for x in fd.args.kwonlyargs]
         out.append((v, dict(info, sig_names=sig, tags=keep + ["shared-doc:" + mode])))
     return out
 
@@ -402,7 +402,7 @@ ATTR_SCALARS = ["5", "0", "-1", "+3", "2.5", "-0.5", "1e-07", "'mnist'", "\"it's
 ATTR_EMPTY = ["()", "[]", "{}"]
 ATTR_ANNS = ["int", "str", "float", "bool", "Optional[int]", "Optional[str]", "List[str]", "Literal['a', 'b']",
              "Union[int, str]", "Dict[str, int]", "object"]
-ATTR_NAMES = ARG_NAMES + ["host", "retries", "timeout", "verbose", "backoff", "port"]
+ATTR_NAMES = [n for n in ARG_NAMES if not n.endswith("kwargs")] + ["host", "retries", "timeout", "verbose", "backoff", "port"]
 
 
 def gen_attr_classes(rng, k=1, annotation_only=0.06, rebind=0.1, **defkw):
@@ -446,7 +446,7 @@ def gen_attr_classes(rng, k=1, annotation_only=0.06, rebind=0.1, **defkw):
                                                                  name="__init__", allow_vararg=False, **defkw)]
         if len(inits) < k:
             inits = None
-    helper = gen_def(rng, kind="self", name="helper", allow_vararg=False)[0] if rng.random() < 0.3 else None
+    helper = gen_def(rng, kind="self", name="helper", safe=True, allow_vararg=False)[0] if rng.random() < 0.3 else None
     out = []
     for j in range(k):
         t = list(tags)
@@ -463,8 +463,9 @@ def gen_attr_classes(rng, k=1, annotation_only=0.06, rebind=0.1, **defkw):
             else:
                 stmts.append("%s = %s" % (n, rng.choice(ATTR_SCALARS + ATTR_SCALARS + ATTR_EMPTY + D_CONTAINER)))
         t.append("attr-pattern:" + pat)
-        if rebind and rng.random() < rebind:
-            i = rng.randrange(len(names))
+        valued = [i for i, x in enumerate(stmts) if "=" in x]
+        if rebind and valued and rng.random() < rebind:
+            i = rng.choice(valued)
             again = ("%s = %s" if ":" in stmts[i].split("=")[0] else "%s: " + rng.choice(ATTR_ANNS) + " = %s") % (
                 names[i], rng.choice(ATTR_SCALARS))
             stmts.insert(rng.randint(i + 1, len(stmts)), again)
@@ -554,7 +555,11 @@ def gen(rng, n, tier="quick"):
             ordk = rng.choice(["sorted", "reversed", "rotated"])
             add("parse_function", [src, infer_type, rng.random() < 0.8, ft, fnm, ordk], info["tags"] + ["order:" + ordk])
         elif r < 0.62:
-            src, tags = gen_class(rng, receiver_names=0.06, class_types=0.4, type_first=0.3, gn_defaults=0.3)
+            if rng.random() < 0.75:
+                src, tags = gen_class(rng, receiver_names=0.06, class_types=0.4, type_first=0.3, gn_defaults=0.3)
+            else:    # body mixing annotated and plain attributes
+                src, tags = gen_attr_classes(rng, 1, receiver_names=0.06, type_first=0.3, gn_defaults=0.3)[0]
+                tags = tags + ["mixed-attrs"]
             if not _ok_source(src):
                 continue
             cd = ast.parse(src).body[0]
